@@ -86,8 +86,19 @@ def main():
             if lib is None:
                 broken.append({'what': 'library-build', 'name': 'sanitized build of /repo/src', 'log': blog[-3000:]})
         exe = None
+        # compile probes: a template instantiation the property quantifies over must compile; when it does the harness
+        # is built with the probe's define and exercises it, when it does not that is a failing "input" (component, kind)
+        probe_flags = []
+        for pr in spec.get('compile_probes', []):
+            pok, perr = C.compile_probe(pr['src'])
+            stats['probe:' + pr['define'] + (':compiles' if pok else ':does_not_compile')] += 1
+            if pok:
+                probe_flags.append('-D' + pr['define'])
+            else:
+                fails.append({'case': None, 'line': 'compile ' + pr['src'], 'verdict': 'fail %s %s %s' % (pr['component'], pr['kind'], perr),
+                              'component': pr['component'], 'kind': pr['kind']})
         if lib is not None or not spec.get('needs_lib', True):
-            exe, hlog = C.build_harness(spec['harness'], lib, extra_flags=spec.get('harness_flags', ()))
+            exe, hlog = C.build_harness(spec['harness'], lib, extra_flags=tuple(spec.get('harness_flags', ())) + tuple(probe_flags))
             if exe is None:
                 broken.append({'what': 'harness-build', 'name': spec['harness'], 'log': hlog})
         if exe is not None:
